@@ -339,6 +339,14 @@ def check_rules(ctx):
                     unpack = [norm(e) for e in n.targets[0].elts]
                     break
         lists = [v for defs in d.defs.values() for v in defs if isinstance(v, ast.List) and v.elts and all(isinstance(e, ast.Call) and isinstance(e.func, ast.Name) and e.func.id in {g.ident for g in table} for e in v.elts)]
+        alt_lists = []
+        if unpack is not None and len(lists) > 1 and target.factory is not None:
+            # several gate lists bound to the same name: one per condition (a shortcut for special angles). Each of them is what the rule
+            # emits on some path, so each has to be the full factorisation
+            names_of = {id(v): k for k, defs in d.defs.items() for v in defs}
+            if len({names_of.get(id(v)) for v in lists}) == 1:
+                alt_lists = lists[1:]
+                lists = lists[:1]
         if unpack is None or len(lists) != 1 or target.factory is None:
             ctx.undecided(R3, ci.key, "production has an unrecognised shape (expected `a, b, c = operation.params` and one list of built-in gate calls)", prod)
             continue
@@ -360,6 +368,9 @@ def check_rules(ctx):
             got.append((e.func.id, tuple(unpack.index(norm(a)) if norm(a) in unpack else None for a in e.args)))
         where = f"{prod.module.relpath}:{emitted.lineno}"
         ok_corr = got == want and all(None not in idx for _, idx in got)
+        for alt in alt_lists:
+            got_alt = [(e.func.id, tuple(unpack.index(norm(a)) if norm(a) in unpack else None for a in e.args)) for e in alt.elts]
+            ctx.check(got_alt == want, R4, ci.key + f":factors:alternative:{short(alt, 40)}", "the alternative list is the same factorisation", f"under some condition the rule emits {short(alt, 80)} = {got_alt} instead of the factors {want} of {fac.name}: a factor that is +/- identity for special angles is a *relative* phase once the controls are re-applied (controlled-RY(2 pi) is a Z on the control), so the decomposed controlled gate acts differently", f"{prod.module.relpath}:{alt.lineno}")
         ctx.check(ok_corr, R4, ci.key + ":factors", f"emitted gates {got} are the factors of {fac.name} in matrix order with the same parameter positions", f"emitted gates {[(short(e, 30)) for e in emitted.elts]} -> {got} do not match the factors {want} of {fac.name} (gate, parameter position): angles are reordered, altered or wrapped before use", where)
         # ordering of the returned sequence
         rets = returned_exprs(prod.node)
